@@ -186,6 +186,56 @@ def _same_section(ctx, b, bb, lookup_term):
     return None
 
 
+DB_FORMS = {"ConfirmedIn", "InMempoolSince"}
+STATUS_ADT = "teos::responder::ConfirmationStatus"
+
+
+def _status_variants(ctx, term, depth=0):
+    """variants a ConfirmationStatus-valued origin term can take (None = unknown / any)"""
+    t = og.strip(term)
+    if not isinstance(t, tuple) or not t or depth > 4:
+        return None
+    if t[0] == "agg" and t[1] == STATUS_ADT:
+        return {t[2]}
+    if t[0] == "phi":
+        out = set()
+        for a in t[1]:
+            v = _status_variants(ctx, a, depth + 1)
+            if v is None:
+                return None
+            out |= v
+        return out
+    if t[0] == "call" and t[1] in ctx.prog.bodies:
+        cb = ctx.prog.bodies[t[1]]
+        ret = ctx.og.local(cb, 0)
+        aggs = {x[2] for x in og.walk(ret) if isinstance(x, tuple) and x and x[0] == "agg" and x[1] == STATUS_ADT}
+        # anything in the return that is neither such an aggregate, a recursive call nor a read of the callee's own memo is unknown
+        return aggs or None
+    return None
+
+
+def _status_without_db_form(ctx, b, call_term):
+    """variants without a DB form that the status argument of this update_tracker_status call may carry, given the branch facts at the call"""
+    args = call_term[2] if call_term[0] == "call" else call_term[4]
+    if len(args) < 3:
+        return {"<unknown>"}
+    st = args[2]
+    vs = _status_variants(ctx, st)
+    if vs is None:
+        return {"<unknown>"}
+    site = call_term[3]
+    sb = ctx.prog.bodies.get(site[0])
+    if sb is not None:
+        sst = og.strip(st)
+        for x in sb.rpo():
+            if sb.orig(x) != site[1]:
+                continue
+            for f in ctx.pf.facts_in(sb).get(x, ()):
+                if f[0] in ("variant", "variant_in") and og.strip(f[1]) == sst:
+                    vs = vs & ({f[2]} if f[0] == "variant" else set(f[2]))
+    return vs - DB_FORMS
+
+
 def rule_PN_tower(ctx, tier):
     return rule_PN(ctx, tier, scope="tower")
 
@@ -307,6 +357,15 @@ def rule_PN(ctx, tier, scope="all", only=None, name=None):
             if cls == "pn3":
                 _pn3(ctx, rr, b, bb, key, pt, pname, held, where)
                 continue
+            if pname.endswith("DBM::update_tracker_status") and pt[0] in ("call", "ret"):
+                # second failure mode of this method: a status without a database form (MissingField)
+                bad = _status_without_db_form(ctx, b, pt)
+                if bad and cls != "undecided":
+                    rr.fail("status-without-db-form:%s" % shortfn(bid), "`%s` unwraps `update_tracker_status(.., status)` where the status can be %s, which has no database form (the method answers Err(MissingField)): the thread panics%s" % (
+                        shortfn(bid), sorted(bad), (" while holding {%s} (poisoning them)" % ", ".join(held)) if held else ""), where=where)
+                    continue
+                elif not bad:
+                    rr.ok("%s: status always has a database form" % key, nontrivial=False)
             if cls == "pn4":
                 why = _same_section(ctx, b, bb, term)
                 # DB methods that are written right after a successful read of the same key in the same section
